@@ -270,15 +270,19 @@ func runC20(c *Ctx) {
 	c20One(c, [][]byte{[]byte("a"), []byte("ab")}, [][]byte{[]byte("a"), []byte("ab"), nil})
 	c20One(c, [][]byte{{0xff}, {0}, {0xff, 0xff}}, [][]byte{nil, {0xff}, {0}})
 	c20One(c, [][]byte{nil, []byte("a")}, [][]byte{nil, []byte("a")})
+	// words that diverge INSIDE a multi-byte character: the common prefix ends after the lead byte (the length is in bytes)
+	c20One(c, [][]byte{[]byte("caf\xc3\xa9"), []byte("caf\xc3\xa8")}, [][]byte{nil, []byte("c"), []byte("caf"), []byte("caf\xc3"), []byte("caf\xc3\xa9")})
+	c20One(c, [][]byte{[]byte("x\xe2\x82\xac1"), []byte("x\xe2\x82\xad"), []byte("y")}, [][]byte{nil, []byte("x"), []byte("x\xe2"), []byte("x\xe2\x82")})
+	c20History(c, []string{"Icaf\xc3\xa9", "Icaf\xc3\xa8", "Tcaf", "Tcaf\xc3", "Icaf\xc3", "Tcaf\xc3"})
 
 	type cfg struct {
 		alpha  []byte
 		maxLen int
 		maxSet int
 	}
-	cfgs := []cfg{{[]byte{'a', 'b'}, 3, 3}, {[]byte{'a', 0x00, 0xff}, 2, 3}}
+	cfgs := []cfg{{[]byte{'a', 'b'}, 3, 3}, {[]byte{'a', 0x00, 0xff}, 2, 3}, {[]byte{'a', 0xc3, 0xa9, 0xa8}, 2, 3}}
 	if c.Thorough() {
-		cfgs = []cfg{{[]byte{'a', 'b'}, 3, 4}, {[]byte{'a', 'b', 0x00, 0xff}, 2, 4}, {[]byte{'a', 0x00, 0xff}, 3, 3}}
+		cfgs = []cfg{{[]byte{'a', 'b'}, 3, 4}, {[]byte{'a', 'b', 0x00, 0xff}, 2, 4}, {[]byte{'a', 0x00, 0xff}, 3, 3}, {[]byte{'a', 0xc3, 0xa9, 0xa8}, 3, 3}, {[]byte{0xe2, 0x82, 0xac, 0xad}, 3, 3}}
 	}
 	for _, cf := range cfgs {
 		ws := c20Words(cf.alpha, cf.maxLen)
@@ -334,7 +338,7 @@ func runC20(c *Ctx) {
 	if c.Thorough() {
 		hn = 30000
 	}
-	halpha := []byte("ab(\x00\xff")
+	halpha := []byte("ab(\x00\xff\xc3\xa9\xa8")
 	for i := 0; i < hn; i++ {
 		var ops []string
 		var seen []string
@@ -369,7 +373,7 @@ func runC20(c *Ctx) {
 	if c.Thorough() {
 		n = 20000
 	}
-	alpha := []byte("ab(_ \x00\xff\xc3")
+	alpha := []byte("ab(_ \x00\xff\xc3\xa9\xa8")
 	for i := 0; i < n; i++ {
 		k := 1 + c.R.Intn(12)
 		var seq [][]byte
